@@ -19,6 +19,8 @@ def render_module(root: Path, tasks: list[dict], version: int) -> str:
         "from pytask import Product, task", "import verif_rt", "",
         f"ROOT = Path({str(root)!r})", f"VERSION = {version}", "",
     ]
+    for n in sorted({x for t in tasks for x in t["deps"] + t["prods"] if 300 <= x < 400}):
+        lines.append(f"M{n} = pytask.PythonNode(name='m{n}')")
     for t in tasks:
         decos = []
         if t.get("skip"):
@@ -40,10 +42,12 @@ def render_module(root: Path, tasks: list[dict], version: int) -> str:
             kw.append(f"after={t['after_expr']!r}")
         if kw or t.get("use_decorator"):
             decos.append("@task(" + ", ".join(kw) + ")")
-        args = [f"d{j}: Path = ROOT / 'f{d}.txt'" for j, d in enumerate(t["deps"]) if not 200 <= d < 300]
+        args = [f"d{j}: Path = ROOT / 'f{d}.txt'" for j, d in enumerate(t["deps"]) if not 200 <= d < 400]
         # hashed Python inputs (node ids 200-299): a PythonNode around a list, no default -> first in the signature
         hargs = [f"pv{d}: Annotated[list, pytask.PythonNode(value=verif_rt.vt(ROOT, {d}), hash=True)]"
                  for d in t["deps"] if 200 <= d < 300]
+        # values handed over in memory (node ids 300-399): module-level PythonNodes
+        hargs += [f"m{d}: Annotated[int, M{d}]" for d in t["deps"] if 300 <= d < 400]
         sp = t.get("spell", {})
         def _pp(p):
             v = sp.get(str(p))
@@ -56,13 +60,15 @@ def render_module(root: Path, tasks: list[dict], version: int) -> str:
             if sp.get(str(p)) == "node_updown":      # an explicit node with an absolute, unnormalised path
                 return f"p{j}: Annotated[Path, pytask.PathNode(path=ROOT / 'sub' / '..' / 'f{p}.txt'), Product]"
             return f"p{j}: Annotated[Path, Product] = {_pp(p)}"
-        pargs = [_pa(j, p) for j, p in enumerate(t["prods"])]
+        pargs = [_pa(j, p) for j, p in enumerate(t["prods"]) if not 300 <= p < 400]
+        memp = [p for p in t["prods"] if 300 <= p < 400]
         args = hargs + [a for a in pargs if "=" not in a.split("]")[-1]] + args + [a for a in pargs if "=" in a.split("]")[-1]]
         lines += decos
-        lines.append(f"def task_t{t['id']}_({', '.join(args)}):")
-        dl = "[" + ", ".join((f"pv{d}" if 200 <= d < 300 else f"d{j}") for j, d in enumerate(t["deps"])) + "]"
-        pl = "{" + ", ".join(f"{p}: p{j}" for j, p in enumerate(t["prods"])) + "}"
-        lines.append(f"    verif_rt.body(ROOT, {t['id']}, VERSION, {dl}, {pl})")
+        ret = f" -> Annotated[int, M{memp[0]}]" if memp else ""
+        lines.append(f"def task_t{t['id']}_({', '.join(args)}){ret}:")
+        dl = "[" + ", ".join((f"pv{d}" if 200 <= d < 300 else (f"m{d}" if 300 <= d < 400 else f"d{j}")) for j, d in enumerate(t["deps"])) + "]"
+        pl = "{" + ", ".join(f"{p}: p{j}" for j, p in enumerate(t["prods"]) if not 300 <= p < 400) + "}"
+        lines.append(f"    return verif_rt.body(ROOT, {t['id']}, VERSION, {dl}, {pl}, mem={memp[0] if memp else None})")
         for a in t.get("attrs", []):
             lines.append(f"task_t{t['id']}_.{a} = 1")
         lines.append("")
@@ -153,7 +159,7 @@ class Snap:
                 n = dag.nodes[sig].get("node")
                 if n is not None and hasattr(n, "path"):
                     nodes[sig] = n.path.parent.name + "/" + n.path.name if n.path.suffix == ".in" else n.path.name
-                elif n is not None and hasattr(n, "node_info") and str(getattr(n, "name", "")).split("::")[-1].startswith("pv"):
+                elif n is not None and hasattr(n, "node_info") and str(getattr(n, "name", "")).split("::")[-1][:2] in ("pv", "m3"):
                     nodes[sig] = str(n.name).split("::")[-1]
         root = session.config["root"]
         (root / "snapshot.json").write_text(json.dumps({"tasks": self.tasks, "nodes": nodes}))
@@ -209,7 +215,7 @@ def _child(root: str, cfg: dict, wfd: int, crash: dict | None):
                 n = dag.nodes[sig].get("node")
                 if n is not None and hasattr(n, "path"):
                     nodes[sig] = n.path.parent.name + "/" + n.path.name if n.path.suffix == ".in" else n.path.name
-                elif n is not None and hasattr(n, "node_info") and str(getattr(n, "name", "")).split("::")[-1].startswith("pv"):
+                elif n is not None and hasattr(n, "node_info") and str(getattr(n, "name", "")).split("::")[-1][:2] in ("pv", "m3"):
                     nodes[sig] = str(n.name).split("::")[-1]
         out["nodes"] = nodes
         os.write(wfd, json.dumps(out).encode())
